@@ -116,7 +116,10 @@ int pthread_mutex_unlock(pthread_mutex_t* m) {
   if (h && h->owner == vs_self() && r == 0) {
     if (--h->depth == 0) *h = held[--nheld];
   }
-  vs_point("mutex-unlock");
+  // No scheduling point after a release: a thread that was waiting for this mutex becomes enabled at
+  // the releaser's next scheduling point (before its next acquire / at its next block), and everything
+  // the releaser does in between is free of synchronisation, hence commutes with the waiter's steps
+  // in race-free code.  This halves the number of choice points without losing interleavings.
   return r;
 }
 }
